@@ -77,10 +77,11 @@ LONG_LAMBDA = ("lambda aaaaaaaaaaaaaaaaaaaa, bbbbbbbbbbbbbbbbbbbbbbbbbbbbb, cccc
                "aaaaaaaaaaaaaaaaaaaa + bbbbbbbbbbbbbbbbbbbbbbbbbbbbb + cccccccccccccccccccccccccc")
 LONG_COMP = ("[xxxxxxxxxxxxxxxxxxxxxxxxx for xxxxxxxxxxxxxxxxxxxxxxxxx in yyyyyyyyyyyyyyyyyyyyyyyyyyyyyyyyyyyyyyyyy "
              "if zzzzzzzzzzzzzzzzzzzzzzzzzzzzzzzzzzzzzzzz]")
-KF_DEFAULTS = ["1e999", "-1e999", LONG_LAMBDA, LONG_COMP, '"x\\u00a0y"', '"x\\ufffey"']
-# (written, shown, what is displayed while the finding is open)
-KF_ANNOTATIONS = [('"A | B" & C', "(A | B) & C", "A | B & C"), ('C & "A | B"', "C & (A | B)", "C & A | B"),
-                  ('-"a + b"', "-(a + b)", "-a + b")]
+KF_DEFAULTS = ['"x\\u00a0y"', '"x\\ufffey"']
+# since /repo 5ae424f, f58c8a9, f1922c5: overflowing floats, values longer than astor's line width and string OPERANDS of
+# annotations are ordinary pool entries
+DEF_POOL += ["1e999", "-1e999", LONG_LAMBDA, LONG_COMP]
+ANN_POOL += [('"A | B" & C', "(A | B) & C"), ('C & "A | B"', "C & (A | B)"), ('-"a + b"', "-(a + b)")]
 
 SEEN_CONSTS: List[str] = []               # per worker process: constant defaults in the order pydoctor first met them
 CASES: List[Dict[str, Any]] = []          # set before forking the pool: workers receive index ranges only
@@ -114,11 +115,9 @@ def exprs_for(rec: Dict[str, Any], rng: Optional[random.Random], lit: str = "Lit
                 ann[i] = rng.choice([x for x in ANN_POOL if '"' not in x[0] and not x[0].startswith("'")])
             elif a == "string":
                 ann[i] = rng.choice([x for x in ANN_POOL if x[0] != x[1]])
-                if rng.random() < 0.03:
-                    ann[i] = rng.choice(KF_ANNOTATIONS)[:2]
             if has_def:
                 u = rng.random()
-                if u < 0.04:
+                if u < 0.02:
                     dflt[i] = rng.choice(KF_DEFAULTS)
                 elif u < 0.3:
                     # a name that collides: preferably an annotated parameter of this very function
@@ -248,52 +247,13 @@ def _diff_params(w: Dict[str, Any], col: int) -> List[Tuple[Any, Any]]:
     return [(e[col], g[col]) for e, g in zip(exp, got) if e[col] != g[col]]
 
 
-def kf_float_overflow(w: Dict[str, Any]) -> bool:
-    """every default that differs is an overflowing float literal (value inf) displayed as the NAME inf"""
-    if w.get("failed") != ["DefaultsWhereWritten"]:
-        return False
-    d = _diff_params(w, 2)
-    return bool(d) and all(e and g and "Constant(value=inf)" in e and e.replace("Constant(value=inf)", "Name(id='inf', ctx=Load())") == g
-                           for e, g in d)
-
-
-def kf_astor_wrapping(w: Dict[str, Any]) -> bool:
-    """the text does not parse because a long lambda / comprehension default was cut at astor's first line break"""
-    text = w["observed"].get("text") or ""
-    if w.get("failed") != ["ReadsBackAsPython"] or text == "(...)":
-        return False
-    cut = [p for p in ("(lambda aaaaaaaaaaaaaaaaaaaa, bbbbbbbbbbbbbbbbbbbbbbbbbbb...", "[xxxxxxxxxxxxxxxxxxxxxxxxx for xxxxxxxxxxxxxxxxxxxxxxxxx...") if p in text]
-    if not cut or not (LONG_LAMBDA in w["input"] or LONG_COMP in w["input"]):
-        return False
-    # with the cut values put back, the text reads back as expected
-    fixed = text.replace("(lambda aaaaaaaaaaaaaaaaaaaa, bbbbbbbbbbbbbbbbbbbbbbbbbbb...", "(" + LONG_LAMBDA + ")") \
-                .replace("[xxxxxxxxxxxxxxxxxxxxxxxxx for xxxxxxxxxxxxxxxxxxxxxxxxx...", LONG_COMP)
-    got = read_back(fixed)
-    if got is None:
-        return False
-    # other open findings may sit in the same signature: compare names, kinds and presence of defaults only
-    return [p[:2] + [p[2] is not None] for p in got["params"]] == [p[:2] + [p[2] is not None] for p in w["expected"]["params"]]
-
-
 def kf_signature_xml(w: Dict[str, Any]) -> bool:
     """the whole signature is replaced by (...) and a string default contains a no-break space / U+FFFE"""
     return (w.get("failed") == ["ReadsBackAsPython"] and (w["observed"].get("text") or "") == "(...)"
             and any(x in w["input"] for x in ('"x\\u00a0y"', '"x\\ufffey"')))
 
 
-def kf_partial_string_operand(w: Dict[str, Any]) -> bool:
-    """every annotation that differs is a string OPERAND shown without the parentheses its expression needs"""
-    if not w.get("failed") or any(f not in ("SameAnnotations", "SameReturn") for f in w["failed"]):
-        return False
-    wrong = {dump(sh): dump(bad) for _, sh, bad in KF_ANNOTATIONS}
-    d = _diff_params(w, 3) if "SameAnnotations" in w["failed"] else []
-    if "SameReturn" in w["failed"]:
-        d.append((w["expected"]["ret"], (w["observed"].get("read_back") or {}).get("ret")))
-    return bool(d) and all(e in wrong and wrong[e] == g for e, g in d)
-
-
-MATCHERS = {"float-overflow-shown-as-name": kf_float_overflow, "astor-line-wrapping-truncates": kf_astor_wrapping,
-            "string-default-breaks-signature-xml": kf_signature_xml, "partial-string-operand-loses-parentheses": kf_partial_string_operand}
+MATCHERS = {"string-default-breaks-signature-xml": kf_signature_xml}
 
 
 # ----------------------------------------------------------------------------------- worker: build + judge
